@@ -69,6 +69,18 @@ def entry_points(tmp, data, label_text):
             out[name] = {"fail": type(e).__name__}
     attempt("path-str", lambda: pvl.load(p))
     attempt("pathlike", lambda: pvl.load(pathlib.Path(p)))
+
+    class FsPath:           # an os.PathLike that is not a pathlib.Path: only __fspath__
+        def __init__(self, q): self.q = q
+        def __fspath__(self): return self.q
+    attempt("fspath-object", lambda: pvl.load(FsPath(p)))
+
+    def dir_entry():
+        for e in os.scandir(tmp):
+            if e.name == "label.lbl":
+                return pvl.load(e)
+        raise FileNotFoundError(p)
+    attempt("dir-entry", dir_entry)
     attempt("file-url", lambda: pvl.loadu(pathlib.Path(p).as_uri()))
 
     def text_stream():
@@ -206,7 +218,7 @@ def run(ctx):
     cov = {"evaluations": evals, "distinct_nontrivial": len(distinct),
            "rule": "non-trivial = distinct (bytes, entry point) pairs with trailing bytes after END; %d generated ASCII labels x separators after END x 7 kinds of trailing bytes (none, random binary, "
                    "valid UTF-8, NULs, long unbroken runs, bad byte right after END, bad byte beyond the 8 KiB mark) x "
-                   "up to 8 entry points (path str, PathLike, file: URL, text stream, binary stream, bytes, BytesIO, "
+                   "up to 10 entry points (path str, pathlib.Path, a bare __fspath__ object, os.DirEntry, file: URL, text stream, binary stream, bytes, BytesIO, "
                    "str); a character-counting lexer (public lexer_fn) measures how far the lexer was driven; dump() "
                    "to path / text stream / binary stream vs dumps()" % n,
            "outcomes": {k: v for k, v in list(stats.items())[:80]}, "samples": samples,
